@@ -164,7 +164,7 @@ Definition op_url (args : list sx) : sx :=
   match args with
   | [SB u] => match url_parse u with
               | UErr => SL [sym "err"]
-              | UOk s h f us => SL [sym "ok"; SB s; SB h; sbool f]
+              | UOk s h _ _ => SL [sym "ok"; SB s; SB h]
               | UUnknown => unknown_sx
               end
   | _ => bad_args
